@@ -186,6 +186,7 @@ var hostileSegs = []string{"a", "b", "d", "l", "m", ".", "..", "", "dst", "dst-e
 var escapeNames = []string{
 	"../dst-evil/x", "../dst-evil/new", "../dstX", "../dst.bak/y", "../dst.bak/new", "../c3", "../../c2", "../../../c1",
 	"../../../../c0", "../outside/f", "../outside/new", "../newsibling", "../dst-evil", "a/../../dst-evil/x", "./../dst-evil/x",
+	"..\\dst-evil\\x", "a\\..\\..\\dst-evil\\new", "..\\newsibling", "a/..\\../x", // backslashes are name characters here, not separators
 	"..", "../", "../.", "a/../..", "dst/../../dst-evil/x", "/../dst-evil/x", "//../dst-evil/x", "../dst/../dst-evil/x",
 	"{R}/l1/c1", "{DST}/../dst-evil/x", "/{R}/c0", "{R}/l1/l2/l3/outside/new", "../a", "../../a/b", "../dst",
 }
